@@ -1366,3 +1366,63 @@ def char_len_utf8(it, args, callee):
     if it.truth(z3.ULT(c, z3.BitVecVal(0x10000, 32))):
         return 3
     return 4
+
+
+@pattern(r'^core::num::<impl (i8|i16|i32|i64|i128|isize|u8|u16|u32|u64|u128|usize)>::saturating_(add|sub|mul)$')
+def int_saturating(it, args, callee):
+    m = re.match(r'^core::num::<impl (\w+)>::saturating_(add|sub|mul)$', callee)
+    ty, op = m.group(1), m.group(2)
+    w, signed = INT_TYPES[ty]
+    a, b = args
+    lo = -(1 << (w - 1)) if signed else 0
+    hi = (1 << (w - 1)) - 1 if signed else (1 << w) - 1
+    if not is_sym(a) and not is_sym(b):
+        r = a + b if op == 'add' else (a - b if op == 'sub' else a * b)
+        return max(lo, min(hi, r))
+    ext = z3.SignExt if signed else z3.ZeroExt
+    k = w if op == 'mul' else 2
+    EA, EB = ext(k, to_bv(a, w)), ext(k, to_bv(b, w))
+    wide = EA + EB if op == 'add' else (EA - EB if op == 'sub' else EA * EB)
+    LO, HI = z3.BitVecVal(lo, w + k), z3.BitVecVal(hi, w + k)
+    if signed:
+        sat = z3.If(wide < LO, LO, z3.If(wide > HI, HI, wide))
+    else:
+        # unsigned subtraction may go below zero in the widened (zero-extended) domain: treat as signed there
+        sat = z3.If(wide < LO, LO, z3.If(wide > HI, HI, wide)) if op == 'sub' else z3.If(z3.UGT(wide, HI), HI, wide)
+    return simp(z3.Extract(w - 1, 0, sat))
+
+
+@pattern(r'^core::str::<impl str>::contains::<char>$')
+def str_contains_char(it, args, callee):
+    s = as_str(args[0])
+    c = args[1]
+    bs = sbytes(s, 'contains')
+    if is_sym(c):
+        raise Unsupported('str::contains with a symbolic needle')
+    needle = tuple(chr(c).encode('utf-8'))
+    n = len(needle)
+    hits = []
+    for i in range(0, len(bs) - n + 1):
+        hits.append(str_eq(it, bs[i:i + n], needle))
+    if any(h is True for h in hits):
+        return True
+    hs = [h for h in hits if h is not False]
+    if not hs:
+        return False
+    return simp(z3.Or(hs) if len(hs) > 1 else hs[0])
+
+
+@pattern(r'^core::str::<impl str>::contains::<&str>$')
+def str_contains_str(it, args, callee):
+    s = sbytes(as_str(args[0]), 'contains')
+    needle = sbytes(as_str(args[1]), 'contains')
+    n = len(needle)
+    if n == 0:
+        return True
+    hits = [str_eq(it, s[i:i + n], needle) for i in range(0, len(s) - n + 1)]
+    if any(h is True for h in hits):
+        return True
+    hs = [h for h in hits if h is not False]
+    if not hs:
+        return False
+    return simp(z3.Or(hs) if len(hs) > 1 else hs[0])
